@@ -648,4 +648,51 @@ def schedule(e: Entry, m: nn.Module):
         return [b.regularizer for b in m.block_list], [], [(IMAGE, 2, 2)], m.num_steps
     if fam == "RIM":
         return list(m.cell_list), [], [(IMAGE, 4, 2)], m.length
+    if fam == "CIRIM":
+        blk = m.block_list[0]
+        hid = blk.hidden_channels
+        mods = [l for b in m.block_list for l in b.layers] + [b.final_layer for b in m.block_list]
+        body = [(IMAGE, 4, hid)] + [(IMAGE, hid, hid)] * (blk.depth - 1) + [(IMAGE, hid, 2)]
+        return mods, [], body, len(m.block_list) * blk.time_steps
     return None
+
+
+def sched_term(e: Entry, m: nn.Module):
+    """the hand-written Lean schedule (`Shapes.Sched`) of the entry's family and its iteration count, as Lean text"""
+    fam = e.name.split("/")[0]
+    b = lambda v: "true" if v else "false"  # noqa: E731
+    if fam == "Unet2d":
+        return "Shapes.schedUnet2d", 0
+    if fam == "EndToEndVarNet":
+        return "Shapes.schedSingle 2 2", len(m.layers_list)
+    if fam == "KIKINet":
+        return "Shapes.schedKiki", m.num_iter
+    if fam == "LPDNet":
+        return f"Shapes.schedLpd {m.num_dual} {m.num_primal}", m.num_iter
+    if fam == "XPDNet":
+        return f"Shapes.schedXpd {m.kspace_buffer_size} {m.image_buffer_size} {b(m.kspace_model_list is not None)}", len(m.image_model_list)
+    if fam == "IterDualNet":
+        return f"Shapes.schedIterDual {b(m.compute_per_coil)}", m.num_iter
+    if fam == "JointICNet":
+        return "Shapes.schedJointIC", m.num_iter
+    if fam == "MultiDomainNet":
+        return f"Shapes.schedMultiDomain {b(hasattr(m, 'standardization'))}", 0
+    if fam == "MRIVarSplitNet":
+        return f"Shapes.schedVarSplit {b(m.kspace_nets is not None)}", m.num_steps_reg
+    if fam in ("VSharpNet", "VSharpNet3D"):
+        return "Shapes.schedSingle 6 2", m.num_steps
+    if fam == "ConjGradNet":
+        return "Shapes.schedSingle 2 2", m.num_steps
+    if fam == "RecurrentVarNet":
+        return "Shapes.schedSingle 2 2", m.num_steps
+    if fam == "RIM":
+        return "Shapes.schedSingle 4 2", m.length
+    if fam == "CIRIM":
+        blk = m.block_list[0]
+        return f"Shapes.schedCirim {blk.depth} {blk.hidden_channels}", len(m.block_list) * blk.time_steps
+    return None
+
+
+def lean_ident(name: str) -> str:
+    import re
+    return re.sub(r"[^A-Za-z0-9]", "_", name)
